@@ -676,7 +676,10 @@ func c16ParseSrvScript(s string) map[string]c16SrvAnswer {
 
 func execResolve(op string, args []string) string {
 	switch op {
-	case "resolve":
+	case "resolve", "resolve_after":
+		// resolve_after <name> <wk1> <wk2> <srv script> <first>: the same resolution, made AFTER the name `first` was resolved in
+		// this process on the same network, with every well-known reply carrying a cache lifetime (max-age) - the answer
+		// for <name> is the one a first resolution gives (resolution carries no state from call to call)
 		name := string(unhx(args[0]))
 		t := &c16WkTransport{replies: map[string]c16WkReply{}}
 		t.replies[name] = c16WkReplyOf(args[1])
@@ -690,6 +693,26 @@ func execResolve(op string, args []string) string {
 		d := &c16FakeDNS{script: c16ParseSrvScript(args[3])}
 		var res []fclient.ResolutionResult
 		var err error
+		if op == "resolve_after" {
+			for k, rep := range t.replies {
+				h := http.Header{}
+				for hk, hv := range rep.header {
+					h[hk] = hv
+				}
+				h.Set("Cache-Control", "public, max-age=3600")
+				rep.header = h
+				t.replies[k] = rep
+			}
+			first := string(unhx(args[4]))
+			c16WithStubs(t, d, func() {
+				for i := 0; i < 2; i++ {
+					_, _ = fclient.ResolveServer(context.Background(), spec.ServerName(first))
+				}
+			})
+			t.mu.Lock()
+			t.asked = nil
+			t.mu.Unlock()
+		}
 		c16WithStubs(t, d, func() { res, err = fclient.ResolveServer(context.Background(), spec.ServerName(name)) })
 		var out string
 		if err != nil {
@@ -1261,6 +1284,12 @@ func genResolve(o *Out, tier string, r *Rng) {
 		script := r.c16GenSrvScript(name, deleg, "second.level.example")
 		res := o.Do("resolve", hx([]byte(name)), wk1, wk2, script)
 		o.Count("resolve." + strings.SplitN(strings.SplitN(res, "|", 2)[0], ":", 2)[0])
+		if strings.HasPrefix(wk1, "S") {
+			// state carried between calls (a well-known cache, ...): the delegated name, or the name itself, resolved first
+			first := Pick(r, []string{deleg, deleg, name})
+			o.Do("resolve_after", hx([]byte(name)), wk1, wk2, script, hx([]byte(first)))
+			o.Count("resolve_after." + map[bool]string{true: "delegate-first", false: "self-first"}[first == deleg])
+		}
 		if strings.HasSuffix(res, "|wk=") {
 			o.Count("no-wellknown-lookup")
 		} else {
